@@ -325,6 +325,28 @@ def step (st : State) (w : List String) : State × String :=
       let ede := match r.ede with | some c => toString c | none => "none"
       (st, s!"rcode={r.rcode} ede={ede} ad={boolStr r.ad} ans={r.answers}")
     | _, _ => (st, "bad-op")
+  | ["store", "priv", _kind, _qt, stored, ask] =>
+    match parseBool ask with
+    | some a =>
+      let ps := listOf stored
+      match privateLookup (ps.contains "0") (ps.contains "1") a with
+      | some p => (st, s!"hit:{if p then 1 else 0}")
+      | none => (st, "miss")
+    | none => (st, "bad-op")
+  | ["ad", "cut", cd, dob, ad, opt, _proto, _route, _depth, _qt] =>
+    match bools [cd, dob, ad, opt] with
+    | some [cd, dob, ad, opt] =>
+      let r : ReqFlags := { cd := cd, doBit := dob && opt, ad := ad, hasOPT := opt }
+      let c := cutServe r
+      (st, s!"cut={boolStr c.hit} rcode={if c.hit then 3 else 5} ad={boolStr c.ad} dnssec={boolStr c.dnssec}")
+    | _ => (st, "bad-op")
+  | ["ad", "hitfail", _cd, _dob, _ad, opt, _proto, _route, _n, kind] =>
+    match parseBool opt with
+    | some o =>
+      let r := hitChaseFailReply (if kind == "servfail-ede" then some 6 else none) o
+      let ede := match r.ede with | some c => toString c | none => "none"
+      (st, s!"rcode={r.rcode} ad={boolStr r.ad} n={r.answers} ede={ede} opt={boolStr o}")
+    | none => (st, "bad-op")
   | "l3" :: _ => (st, "unmodelled")
   | _ => (st, "bad-op")
 
